@@ -196,3 +196,277 @@ def refTcp (t : Str) : Option TcpSig :=
   | _ => none
 
 end Huginn.SigText.Spec
+
+/-! ## documents: what a database text is made of, and what loading it must yield -/
+namespace Huginn.SigText.Spec
+open Huginn.Sig Huginn.SigText
+
+/-- layout of one line: whitespace before, spaces/tabs around `=`, whitespace after -/
+structure Pad where
+  lead  : Str := []
+  pre   : Str := [' ']
+  post  : Str := [' ']
+  trail : Str := []
+  deriving DecidableEq, Repr, Inhabited
+
+/-- lines every section may contain (and the part of the file before the first section) -/
+inductive Misc
+  | comment (lead text : Str)                           -- `;text`
+  | blank (ws : Str)
+  | classes (pad : Pad) (cs : List Str)                 -- `classes = a,b,c`
+  | uaOs (pad : Pad) (rules : List (Str × Option Str))  -- `ua_os = Linux,iOS=[iPad],…`
+  deriving DecidableEq, Repr, Inhabited
+
+/-- lines of a section with labels of type `lab` and signatures of type `σ` -/
+inductive Item (lab σ : Type)
+  | misc (m : Misc)
+  | label (pad : Pad) (l : lab)
+  | sys (pad : Pad) (text : Str)
+  | sig (pad : Pad) (s : σ)
+  deriving DecidableEq, Repr, Inhabited
+
+inductive Section
+  | tcp (lead trail : Str) (response : Bool) (items : List (Item LabelL TcpSig))
+  | http (lead trail : Str) (response : Bool) (items : List (Item LabelL HttpSigL))
+  | mtu (lead trail : Str) (items : List (Item Str Nat))
+  /-- a module the loader does not know: its labels must still be labels, its `sig` lines are free text -/
+  | other (lead trail : Str) (module : Str) (dir : Option Str) (items : List (Item LabelL Str))
+  deriving Repr, Inhabited
+
+structure Doc where
+  pre      : List Misc
+  sections : List Section
+  deriving Repr, Inhabited
+
+/-! ### rendering (p0f.fp syntax) -/
+
+def renderLabel (l : LabelL) : Str :=
+  (match l.ty with | .specified => 's' | .generic => 'g') :: ':' ::
+  (match l.cls with | none => ['!'] | some c => c) ++ ':' :: l.name ++ ':' :: l.flavor.getD []
+
+def joinWith (sep : Char) : List Str → Str
+  | [] => []
+  | [x] => x
+  | x :: y :: r => x ++ sep :: joinWith sep (y :: r)
+
+def renderRule : Str × Option Str → Str
+  | (n, none) => n
+  | (n, some v) => n ++ '=' :: '[' :: v ++ [']']
+
+def named (pad : Pad) (name : String) (value : Str) : Str :=
+  pad.lead ++ name.toList ++ pad.pre ++ '=' :: pad.post ++ value ++ pad.trail
+
+def renderMisc : Misc → Str
+  | .comment lead text => lead ++ ';' :: text
+  | .blank ws => ws
+  | .classes pad cs => named pad "classes" (joinWith ',' cs)
+  | .uaOs pad rules => named pad "ua_os" (joinWith ',' (rules.map renderRule))
+
+def renderItem {lab σ} (prLabel : lab → Str) (prSig : σ → Str) : Item lab σ → Str
+  | .misc m => renderMisc m
+  | .label pad l => named pad "label" (prLabel l)
+  | .sys pad t => named pad "sys" t
+  | .sig pad s => named pad "sig" (prSig s)
+
+def header (lead trail : Str) (name : Str) : Str := lead ++ '[' :: name ++ ']' :: trail
+
+def sectionLines : Section → List Str
+  | .tcp lead trail resp items =>
+    header lead trail (if resp then "tcp:response".toList else "tcp:request".toList) ::
+      items.map (renderItem renderLabel printTcpSig)
+  | .http lead trail resp items =>
+    header lead trail (if resp then "http:response".toList else "http:request".toList) ::
+      items.map (renderItem renderLabel printHttpSigL)
+  | .mtu lead trail items => header lead trail "mtu".toList :: items.map (renderItem id natDigits)
+  | .other lead trail m d items =>
+    header lead trail (m ++ (match d with | some d => ':' :: d | none => [])) ::
+      items.map (renderItem renderLabel id)
+
+def docLines (d : Doc) : List Str := d.pre.map renderMisc ++ d.sections.flatMap sectionLines
+
+/-- every line terminated by `\n` -/
+def renderLines (ls : List Str) : Str := ls.flatMap (· ++ ['\n'])
+def renderDoc (d : Doc) : Str := renderLines (docLines d)
+
+/-! ### what loading must yield -/
+
+/-- the signatures directly under a label: up to the next label, in file order -/
+def takeSigs {lab σ} : List (Item lab σ) → List σ
+  | [] => []
+  | .sig _ s :: r => s :: takeSigs r
+  | .label _ _ :: _ => []
+  | _ :: r => takeSigs r
+
+/-- each label with the signatures written under it -/
+def group {lab σ} : List (Item lab σ) → List (lab × List σ)
+  | [] => []
+  | .label _ l :: r => (l, takeSigs r) :: group r
+  | _ :: r => group r
+
+def miscsOf {lab σ} (items : List (Item lab σ)) : List Misc :=
+  items.filterMap fun | .misc m => some m | _ => none
+
+def sectionMiscs : Section → List Misc
+  | .tcp _ _ _ items => miscsOf items
+  | .http _ _ _ items => miscsOf items
+  | .mtu _ _ items => miscsOf items
+  | .other _ _ _ _ items => miscsOf items
+
+def allMiscs (d : Doc) : List Misc := d.pre ++ d.sections.flatMap sectionMiscs
+
+def mapTable {lab lab' σ σ'} (f : lab → lab') (g : σ → σ') (t : List (lab × List σ)) : List (lab' × List σ') :=
+  t.map fun (l, ss) => (f l, ss.map g)
+
+/-- the database a document denotes: everything written, in file order, under its section and label -/
+def flatten (d : Doc) : Db where
+  classes := (allMiscs d).flatMap fun | .classes _ cs => cs | _ => []
+  uaOs := (allMiscs d).flatMap fun | .uaOs _ rs => rs | _ => []
+  mtu := d.sections.flatMap fun | .mtu _ _ items => group items | _ => []
+  tcpReq := d.sections.flatMap fun
+    | .tcp _ _ false items => mapTable LabelL.toSig id (group items) | _ => []
+  tcpResp := d.sections.flatMap fun
+    | .tcp _ _ true items => mapTable LabelL.toSig id (group items) | _ => []
+  httpReq := d.sections.flatMap fun
+    | .http _ _ false items => mapTable LabelL.toSig HttpSigL.toSig (group items) | _ => []
+  httpResp := d.sections.flatMap fun
+    | .http _ _ true items => mapTable LabelL.toSig HttpSigL.toSig (group items) | _ => []
+
+/-! ### well-formed documents -/
+
+def allWs (s : Str) : Prop := ∀ c ∈ s, isWs c = true ∧ c ≠ '\n'
+instance (s : Str) : Decidable (allWs s) := by unfold allWs; exact inferInstance
+def allSpaceTab (s : Str) : Prop := ∀ c ∈ s, isSpaceTab c = true
+instance (s : Str) : Decidable (allSpaceTab s) := by unfold allSpaceTab; exact inferInstance
+
+structure WFPad (p : Pad) : Prop where
+  lead : allWs p.lead
+  pre : allSpaceTab p.pre
+  post : allSpaceTab p.post
+  trail : allWs p.trail
+instance (p : Pad) : Decidable (WFPad p) :=
+  decidable_of_iff (allWs p.lead ∧ allSpaceTab p.pre ∧ allSpaceTab p.post ∧ allWs p.trail)
+    ⟨fun ⟨a, b, c, d⟩ => ⟨a, b, c, d⟩, fun ⟨a, b, c, d⟩ => ⟨a, b, c, d⟩⟩
+
+/-- a value that survives being written after `name = ` on one line: not empty, no line break, does
+not start with a space/tab (they belong to the layout), does not end in whitespace (trimmed) -/
+def LineSafe (v : Str) : Prop :=
+  v ≠ [] ∧ '\n' ∉ v ∧ (∀ c ∈ v.head?, isSpaceTab c = false) ∧ (∀ c ∈ v.getLast?, isWs c = false)
+instance (v : Str) : Decidable (LineSafe v) := by unfold LineSafe; exact inferInstance
+
+def WFLabel (l : LabelL) : Prop :=
+  (∀ c ∈ l.cls, ':' ∉ c ∧ '\n' ∉ c ∧ c.head? ≠ some '!') ∧
+  (':' ∉ l.name ∧ '\n' ∉ l.name) ∧
+  (∀ f ∈ l.flavor, f ≠ [] ∧ '\n' ∉ f ∧ ∀ c ∈ f.getLast?, isWs c = false)
+instance (l : LabelL) : Decidable (WFLabel l) := by unfold WFLabel; exact inferInstance
+
+def alnum1 (s : Str) : Prop := s ≠ [] ∧ ∀ c ∈ s, c.isAlphanum = true
+instance (s : Str) : Decidable (alnum1 s) := by unfold alnum1; exact inferInstance
+def alpha1P (s : Str) : Prop := s ≠ [] ∧ ∀ c ∈ s, c.isAlpha = true
+instance (s : Str) : Decidable (alpha1P s) := by unfold alpha1P; exact inferInstance
+
+/-- a `ua_os` rule of the p0f format: a name, optionally `=[text]` -/
+def WFRule (r : Str × Option Str) : Prop :=
+  r.1 ≠ [] ∧ (∀ c ∈ r.1, c ≠ ',' ∧ c ≠ '=' ∧ c ≠ '\n') ∧
+  (∀ c ∈ r.1.head?, isWs c = false) ∧ (∀ c ∈ r.1.getLast?, isWs c = false) ∧
+  (∀ v ∈ r.2, ∀ c ∈ v, c ≠ ']' ∧ c ≠ ',' ∧ c ≠ '\n')
+instance (r : Str × Option Str) : Decidable (WFRule r) := by unfold WFRule; exact inferInstance
+
+def WFMisc : Misc → Prop
+  | .comment lead text => allWs lead ∧ '\n' ∉ text
+  | .blank ws => allWs ws
+  | .classes pad cs => WFPad pad ∧ cs ≠ [] ∧ ∀ c ∈ cs, alnum1 c
+  | .uaOs pad rs => WFPad pad ∧ rs ≠ [] ∧ ∀ r ∈ rs, WFRule r
+instance : DecidablePred WFMisc := fun m => by cases m <;> (unfold WFMisc; exact inferInstance)
+
+def WFItem {lab σ} (wfLabel : lab → Prop) (prLabel : lab → Str) (wfSig : σ → Prop) (prSig : σ → Str) :
+    Item lab σ → Prop
+  | .misc m => WFMisc m
+  | .label pad l => WFPad pad ∧ wfLabel l ∧ LineSafe (prLabel l)
+  | .sys pad t => WFPad pad ∧ LineSafe t
+  | .sig pad s => WFPad pad ∧ wfSig s ∧ LineSafe (prSig s)
+
+/-- no signature is written before the first label of the section -/
+def NoOrphan {lab σ} (items : List (Item lab σ)) : Prop := takeSigs items = []
+
+def knownModule (m : Str) (d : Option Str) : Bool :=
+  m == "mtu".toList ||
+  ((m == "tcp".toList || m == "http".toList) && (d == some "request".toList || d == some "response".toList))
+
+def WFSection : Section → Prop
+  | .tcp lead trail _ items => allWs lead ∧ allWs trail ∧ NoOrphan items ∧
+      ∀ it ∈ items, WFItem WFLabel renderLabel WFTcp printTcpSig it
+  | .http lead trail _ items => allWs lead ∧ allWs trail ∧ NoOrphan items ∧
+      ∀ it ∈ items, WFItem WFLabel renderLabel WFHttpL printHttpSigL it
+  | .mtu lead trail items => allWs lead ∧ allWs trail ∧ NoOrphan items ∧
+      ∀ it ∈ items, WFItem (fun _ => True) id (fun n => n ≤ 65535) natDigits it
+  | .other lead trail m d items => allWs lead ∧ allWs trail ∧ alpha1P m ∧ (∀ x ∈ d, alpha1P x) ∧
+      knownModule m d = false ∧ ∀ it ∈ items, WFItem WFLabel renderLabel (fun _ => True) id it
+
+structure WFDoc (d : Doc) : Prop where
+  pre : ∀ m ∈ d.pre, WFMisc m
+  sections : ∀ s ∈ d.sections, WFSection s
+
+end Huginn.SigText.Spec
+
+namespace Huginn.KF.C06
+open Huginn.SigText Huginn.SigText.Spec
+
+/-- a `ua_os` rule the loader cannot read: `parse_ua_os` only takes alphanumeric names (and
+`name=alnum`, which is not the p0f syntax), stops at the first other rule and ignores the rest of the line -/
+def ruleUnreadable (r : Str × Option Str) : Prop := r.2.isSome = true ∨ ¬ alnum1 r.1
+instance (r : Str × Option Str) : Decidable (ruleUnreadable r) := by unfold ruleUnreadable; exact inferInstance
+
+def miscUnreadable : Misc → Prop
+  | .uaOs _ rs => ∃ r ∈ rs, ruleUnreadable r
+  | _ => False
+instance : DecidablePred miscUnreadable := fun m => by cases m <;> (unfold miscUnreadable; exact inferInstance)
+
+def uaOsLossy (d : Doc) : Prop := ∃ m ∈ allMiscs d, miscUnreadable m
+instance (d : Doc) : Decidable (uaOsLossy d) := by unfold uaOsLossy; exact inferInstance
+
+/-- the document contains an HTTP signature of the class `httpEmptyHorder` -/
+def itemEmptyHorder : Item LabelL HttpSigL → Prop
+  | .sig _ s => httpEmptyHorder s
+  | _ => False
+instance : DecidablePred itemEmptyHorder := fun it => by
+  cases it <;> (unfold itemEmptyHorder; exact inferInstance)
+def sectionEmptyHorder : Section → Prop
+  | .http _ _ _ items => ∃ it ∈ items, itemEmptyHorder it
+  | _ => False
+instance : DecidablePred sectionEmptyHorder := fun s => by
+  cases s <;> (unfold sectionEmptyHorder; exact inferInstance)
+def docEmptyHorder (d : Doc) : Prop := ∃ s ∈ d.sections, sectionEmptyHorder s
+instance (d : Doc) : Decidable (docEmptyHorder d) := by unfold docEmptyHorder; exact inferInstance
+
+end Huginn.KF.C06
+
+namespace Huginn.SigText.Spec
+open Huginn.Sig Huginn.SigText
+
+instance {lab σ} (wl : lab → Prop) [DecidablePred wl] (pl : lab → Str) (ws : σ → Prop) [DecidablePred ws]
+    (ps : σ → Str) : DecidablePred (WFItem wl pl ws ps) := fun it => by
+  cases it <;> (unfold WFItem; exact inferInstance)
+
+instance {lab σ} (items : List (Item lab σ)) : Decidable (NoOrphan items) :=
+  decidable_of_iff ((takeSigs items).isEmpty = true) (by unfold NoOrphan; exact List.isEmpty_iff)
+
+instance : DecidablePred WFSection := fun s => by
+  cases s <;> (unfold WFSection; exact inferInstance)
+
+instance (d : Doc) : Decidable (WFDoc d) :=
+  decidable_of_iff ((∀ m ∈ d.pre, WFMisc m) ∧ ∀ s ∈ d.sections, WFSection s)
+    ⟨fun ⟨a, b⟩ => ⟨a, b⟩, fun ⟨a, b⟩ => ⟨a, b⟩⟩
+
+/-- reference reader of a label `t:class:name:flavor` (split at `:`; the flavor may contain `:`) -/
+def refLabel (t : Str) : Option LabelL :=
+  match splitOn ':' t with
+  | ty :: cls :: name :: f :: fs =>
+    let flavor := joinWith ':' (f :: fs)
+    let ty? : Option LabelType := if ty = ['s'] then some .specified else if ty = ['g'] then some .generic else none
+    let cls? : Option (Option Str) := if cls = ['!'] then some none else if cls.head? = some '!' then none else some (some cls)
+    match ty?, cls? with
+    | some ty, some cls => some ⟨ty, cls, name, if flavor = [] then none else some flavor⟩
+    | _, _ => none
+  | _ => none
+
+end Huginn.SigText.Spec
